@@ -251,5 +251,10 @@ def load(repo=None, extra_tus=None, extra_roots=None, use_cache=True, only_tus=N
         if f in lst:
             lst.remove(f)
         facts.controls[f["qn"]] = f
+    if os.environ.get("VERIF_NO_NORMALISE") != "1":
+        # members that are always assigned the same function of other members: verified ones are rewritten away, stale ones
+        # are kept for the rules to report (cdnsverif/derived.py)
+        from . import derived
+        facts.derived_eliminated = derived.apply(facts)
     facts.extract_s = time.time() - t0
     return facts
